@@ -160,7 +160,7 @@ def check_formula(f, x, tol):
 
 def highs_itself_fails(f):
     """independent translation of a compiled mixed-integer program into scipy.optimize.milp (not RSOME's def_sol): True when HiGHS
-    reports it infeasible/unbounded with presolve on but solves it with presolve off, i.e. the failure belongs to the installed
+    fails (infeasible / unbounded / 'solve error') with presolve on but solves it with presolve off, i.e. the failure belongs to the installed
     solver (seen: integer columns + duplicated equality rows), not to the interface code that the property is about"""
     from scipy.optimize import milp, LinearConstraint, Bounds
     vt = np.array(list(f.vtype))
@@ -175,7 +175,7 @@ def highs_itself_fails(f):
         r = milp(np.asarray(f.obj, dtype=float).ravel(), integrality=(vt != 'C').astype(float), bounds=Bounds(lb, ub),
                  constraints=LinearConstraint(f.linear, lo, np.asarray(f.const, dtype=float)), options={'presolve': pre})
         out.append(r.status)
-    return out[0] in (2, 3) and out[1] == 0
+    return out[0] != 0 and out[1] == 0
 
 
 def ill_posed(results, tolv, delta=1e-6):
@@ -192,11 +192,14 @@ def ill_posed(results, tolv, delta=1e-6):
         f2.const = np.array(f.const, dtype=float)
         ineq = np.asarray(f.sense) == 0
         f2.const[ineq] += delta * (1 + np.abs(f2.const[ineq]))
-        f2.lb = np.array(f.lb, dtype=float) - delta * (1 + np.abs(np.where(np.isfinite(f.lb), f.lb, 0.0)))
-        f2.ub = np.array(f.ub, dtype=float) + delta * (1 + np.abs(np.where(np.isfinite(f.ub), f.ub, 0.0)))
+        cont = np.array(list(f.vtype)) == 'C'
+        f2.lb = np.array(f.lb, dtype=float)
+        f2.ub = np.array(f.ub, dtype=float)
+        f2.lb[cont] -= delta * (1 + np.abs(np.where(np.isfinite(f2.lb[cont]), f2.lb[cont], 0.0)))
+        f2.ub[cont] += delta * (1 + np.abs(np.where(np.isfinite(f2.ub[cont]), f2.ub[cont], 0.0)))
         with quiet():
             try:
-                s2 = mods[name].solve(f2, display=False)
+                s2 = mods[name].solve(f2, display=False, params={'TimeLimit': 30} if name == 'gurobi' else {})
             except Exception:
                 continue
         if s2 is None or s2.x is None or np.isnan(s2.objval):
